@@ -229,6 +229,21 @@ def g3(rep, w):
     r.check(loops, 'trace_references loops until no grey box remains', 'trace_references no longer iterates to a fixpoint', tr.loc())
 
 
+def holds_root(c, tid, depth=0):
+    """the type is, or contains - in its arguments or in the fields of a struct / enum of the workspace - a Root / UniqueRoot"""
+    if c.ty_mentions(tid, {c01.ROOT, c01.UROOT}):
+        return True
+    if depth > 4:
+        return False
+    for _, t in c.ty_walk(tid) if hasattr(c, 'ty_walk') else ():
+        if t['k'] == 'adt' and t['n'] in c.adts and not t['n'].startswith('yarel::memory::'):
+            for v in c.adts[t['n']]['variants']:
+                for fd in v['fields']:
+                    if c.ty_mentions(fd['t'], {c01.ROOT, c01.UROOT}) or (fd['t'] != tid and holds_root(c, fd['t'], depth + 1)):
+                        return True
+    return False
+
+
 def g4(rep, w):
     """containers owned by the Vm that receive Roots from code reachable from Vm::run"""
     c = w.yarel
@@ -252,7 +267,7 @@ def g4(rep, w):
                 pl = op_place(a)
                 if 'm' in a and pl is not None:
                     tid = pl.get('t', f.local_ty(pl['l']))
-                    if c.ty_mentions(tid, {c01.ROOT, c01.UROOT}):
+                    if holds_root(c, tid):
                         moved_root = True
             if not moved_root:
                 continue
@@ -317,7 +332,19 @@ def bounded_by_len_test(f, call_block, org=None, recv=None):
                 rr = s['r']
                 if rr.get('rv') == 'bin' and rr['op'] in ('Ge', 'Gt', 'Lt', 'Le', 'Eq'):
                     k = op_const(rr['b']) or op_const(rr['a'])
-                    if k is not None and 'v' in k:
+                    # the other side is the length of this very container (`num_args > 1` is a comparison with a constant too, and bounds nothing)
+                    other = op_place(rr['a']) if op_const(rr['b']) is not None else op_place(rr['b'])
+                    is_len = False
+                    if other is not None and org is not None and recv is not None:
+                        for q in org.get(other['l'], ()):
+                            if q[0][0] == 'call' and strip_generics(q[0][2]).rsplit('::', 1)[-1] in ('len', 'size', 'count'):
+                                lt = f.blocks[q[0][1]]['t']
+                                lp = op_place(lt['args'][0]) if lt.get('args') else None
+                                if lp is not None and ({x for x in org.get(lp['l'], ()) if len(x) >= 3} & {x for x in org.get(recv, ()) if len(x) >= 3}):
+                                    is_len = True
+                    elif org is None or recv is None:
+                        is_len = True
+                    if k is not None and 'v' in k and is_len:
                         # which edge leads to the call?
                         zero_target = [c[1] for c in t['cases'] if c[0] == 0]
                         via_false = bool(zero_target) and call_block in f.reachable_blocks(zero_target[0])
